@@ -395,6 +395,6 @@ func genProg(t *rapid.T) ProgCase {
 	return c
 }
 
-var propProg = h.NewProp("TestPropProgram", h.Budget{Quick: 3000, Thorough: 60000}, genProg, runProg)
+var propProg = h.NewProp("TestPropProgram", h.Budget{Quick: 2400, Thorough: 60000}, genProg, runProg)
 
 func TestPropProgram(t *testing.T) { propProg.Check(t) }
